@@ -636,6 +636,13 @@ func (au *audition) setAndActivateVar(
 	au.logger.Logf(ctx, "%s := %v", vn, val)
 	varNameS := vn.String()
 	prevV := au.st.curVals[varNameS]
+	if arr, ok := val.([]interface{}); ok {
+		// Never store an array with spare capacity: an append on a stored
+		// array (by a collects clause, or by the expression evaluator
+		// building an argument list) must not write into cells that
+		// another variable still shares.
+		val = arr[:len(arr):len(arr)]
+	}
 	au.st.curVals[varNameS] = val
 	au.st.curActivated[vn] = true
 	v := au.cfg.vars[vn]
